@@ -11,6 +11,15 @@
 //              returns, definite results, no callback after stop() returned, a receiver parked before an I/O-thread self-destruct
 //              is notified, Impl is deleted by the thread epilogue); ASan/TSan builds are the failing-input search (DESIGN §7 C05).
 //   `cstorm …` connect() storms against stop(); `latch tcp|udp` deterministic windows inside the shutdown drain.
+//   `startwindow tcp` deterministic window inside start() of a restart (interposed eventfd()): a stale TimerService handler's enqueue (FC05c).
+//   `timerstop tcp <variant>:<timeoutMs>:<after>:<observeMs> …` stop() while safety-net timers (connect / TLS handshake / write
+//              stall) of a session are still pending on the engine's TimerService thread; every callback is recorded with the
+//              thread role it ran on (api / io / timer), callbacks that start after stop() returned are `late`.
+#include <arpa/inet.h>
+#include <netinet/in.h>
+#include <pthread.h>
+#include <sys/socket.h>
+#include <unistd.h>
 #include "tsync_common.hpp"
 #ifdef TSYNC_NO_DETSCHED
 // ThreadSanitizer build: DetSched is not linked (it and TSan both intercept pthread_*); only the storm ops are available
@@ -23,6 +32,22 @@ void yield_point(const char*) { std::this_thread::yield(); }
 #endif
 
 using namespace ts;
+
+// ---- interposed eventfd() (op `startwindow`): armed for exactly one call; the hook runs on the calling thread BEFORE the real call ----
+#include <dlfcn.h>
+#include <sys/eventfd.h>
+namespace swin {
+std::atomic<bool> armed{false};
+std::function<void()> hook;
+}
+extern "C" int eventfd(unsigned int initval, int flags)
+{
+  using Fn = int (*)(unsigned int, int);
+  static Fn real = reinterpret_cast<Fn>(dlsym(RTLD_NEXT, "eventfd"));
+  bool exp = true;
+  if (swin::armed.compare_exchange_strong(exp, false) && swin::hook) swin::hook();
+  return real(initval, flags);
+}
 
 namespace {
 
@@ -482,7 +507,22 @@ std::string runSched(const std::vector<std::string>& t)
       else if (c.kind == "destroy") { c.last = push(m.tid, "tdDestroy", "-"); addObs(c.last, m.text); }
       else if (c.kind == "flushdestroy") { c.last = push(m.tid, "tdOrphan", "-"); }
       else if (c.kind == "ioexit") { c.last = push(m.tid, "ioDrain", c.pendingObs.empty() ? "-" : c.pendingObs); }
-      else addObs(c.last, m.text);
+      else
+      {
+        addObs(c.last, m.text);
+        if ((c.kind == "ioclose" || c.kind == "iodrain") && !c.pendingObs.empty() && c.last >= 0)
+        {
+          // the close handler marks the session closed (its syncMutex section = the model step) BEFORE it invokes the global close
+          // callback (repair FC03c): the callback's observation arrives after the step and belongs to it. Had a stop() returned or
+          // Impl been destroyed in between, it is reported as `lategclose` on the latest step instead (the T5 monitors see it there).
+          bool late = false;
+          for (std::size_t k = static_cast<std::size_t>(c.last) + 1; k < steps.size(); ++k)
+            if (steps[k].step == "stopJoin" || steps[k].step == "tdDestroy" || steps[k].step == "tdOrphan") late = true;
+          if (late) addObs(static_cast<long>(steps.size()) - 1, "late" + c.pendingObs);
+          else addObs(c.last, c.pendingObs);
+          c.pendingObs.clear();
+        }
+      }
       st.pop_back();
     }
     else if (m.kind == 'K')
@@ -1159,9 +1199,247 @@ std::string runOwnerStop(const std::vector<std::string>& t)
   return out;
 }
 
+// ------------------------------------------------------------------------------------------------------------------
+// timerstop tcp <spec> <spec> ...   spec = <variant>:<timeoutMs>:<after>:<observeMs>; all scenarios of one line run concurrently.
+//   variant  hs  TLS client handshake pending against a mute peer (connectTimeout = T, handshakeTimeout = T + 40 ms)
+//            ct  the same with handshakeTimeout = 30 s (only the connect-timeout timer expires inside the window)
+//            ws  plain connection, tiny buffers, 512 KiB sent to a peer that never reads (writeStallTimeout = T)
+//   after    keep | destroy<N> | restart<N>: what happens to the stopped transport (N ms after stop() returned);
+//            expire: stop() is called only AFTER the timers expired on the running engine (the time-out close must run on the I/O thread)
+// stop() is called about T/3 after the connect was issued, i.e. while the timers are certainly armed; they expire after stop()
+// has returned, on the TimerService thread ("TcpEngineTimer"). Answer: one group per scenario,
+//   g=<k>;v=<variant>;setup=<ok|fail:why>;armed=<0|1>;cbs=<close callbacks before stopret>;late=<n>;lateEv=<a/b|->;ev=<a/b/...>
+struct TsMutePeer   // completes the TCP handshake (kernel backlog) and stays mute: never accepts, reads or writes
+{
+  int fd = -1;
+  std::uint16_t port = 0;
+  explicit TsMutePeer(int rcvBuf)
+  {
+    fd = ::socket(AF_INET, SOCK_STREAM | SOCK_CLOEXEC, 0);
+    if (fd < 0) return;
+    if (rcvBuf > 0) ::setsockopt(fd, SOL_SOCKET, SO_RCVBUF, &rcvBuf, sizeof(rcvBuf));   // inherited by the never-accepted connections
+    sockaddr_in sa{};
+    sa.sin_family = AF_INET;
+    sa.sin_addr.s_addr = htonl(INADDR_LOOPBACK);
+    socklen_t sl = sizeof(sa);
+    if (::bind(fd, reinterpret_cast<sockaddr*>(&sa), sizeof(sa)) != 0 || ::listen(fd, 8) != 0 ||
+        ::getsockname(fd, reinterpret_cast<sockaddr*>(&sa), &sl) != 0) { ::close(fd); fd = -1; return; }
+    port = ntohs(sa.sin_port);
+  }
+  ~TsMutePeer() { if (fd >= 0) ::close(fd); }
+  TsMutePeer(const TsMutePeer&) = delete;
+};
+
+struct TsWatch
+{
+  std::thread::id api = std::this_thread::get_id();   // the scenario thread: the one that makes the API calls
+  std::atomic<bool> stopReturned{false};              // cleared right before a restart's start()
+  std::atomic<bool> firstStopRet{false};              // never cleared: cbs counts close callbacks before the FIRST stopret
+  std::mutex mx;
+  int late = 0, cbs = 0;
+  std::vector<std::string> ev, lateEv;
+  void note(const std::string& e) { std::lock_guard<std::mutex> g(mx); ev.push_back(e); }
+  void cb(const char* kind)
+  {
+    const bool isLate = stopReturned.load(), first = !firstStopRet.load();   // sampled when the callback STARTS
+    char nm[32] = {0};
+    const char* role = "io";
+    if (std::this_thread::get_id() == api) role = "api";
+    else if (pthread_getname_np(pthread_self(), nm, sizeof(nm)) == 0 && std::strncmp(nm, "TcpEngineTimer", 14) == 0) role = "timer";
+    std::string e = std::string("cb:") + role + ":" + kind;
+    std::lock_guard<std::mutex> g(mx);
+    ev.push_back(e);
+    if (isLate) { late++; lateEv.push_back(e); }
+    if (first && std::strcmp(kind, "close") == 0) cbs++;
+  }
+  void install(Transport& t)
+  {
+    t.onAccept([this](SessionId, const TransportAddress&) { cb("accept"); });
+    t.onConnect([this](SessionId, const TransportAddress&) { cb("connect"); });
+    t.onData([this](SessionId, iora::core::BufferView, std::chrono::steady_clock::time_point) { cb("data"); });
+    t.onClose([this](SessionId, const TransportErrorInfo&) { cb("close"); });
+    t.onError([this](TransportError, const std::string&) { cb("error"); });
+  }
+};
+
+struct TsSpec { std::string v; u64 timeoutMs = 0, observeMs = 0, n = 0; char after = 'k'; };   // after: k keep, d destroy<N>, r restart<N>
+
+bool tsParse(const std::string& s, TsSpec& sp)
+{
+  std::vector<std::string> p(1);
+  for (char c : s) { if (c == ':') p.emplace_back(); else p.back() += c; }
+  if (p.size() != 4 || (p[0] != "hs" && p[0] != "ct" && p[0] != "ws") || !vh::parseNat(p[1], sp.timeoutMs) || !vh::parseNat(p[3], sp.observeMs)) return false;
+  sp.v = p[0];
+  if (p[2] == "keep") sp.after = 'k';
+  else if (p[2] == "expire") sp.after = 'e';     // the timers expire while the engine RUNS (stop() only afterwards): which thread runs the callbacks?
+  else if (p[2].rfind("destroy", 0) == 0 && vh::parseNat(p[2].substr(7), sp.n)) sp.after = 'd';
+  else if (p[2].rfind("restart", 0) == 0 && vh::parseNat(p[2].substr(7), sp.n)) sp.after = 'r';
+  else return false;
+  return sp.timeoutMs >= 30 && sp.timeoutMs <= 10000 && sp.observeMs <= 10000 && sp.n <= sp.observeMs;
+}
+
+std::string tsScenario(std::size_t k, const TsSpec& sp)
+{
+  using ms = std::chrono::milliseconds;
+  using clk = std::chrono::steady_clock;
+  auto waitFor = [](const std::function<bool()>& p, ms limit) {
+    const auto end = clk::now() + limit;
+    while (clk::now() < end) { if (p()) return true; std::this_thread::sleep_for(ms(2)); }
+    return p();
+  };
+  const bool ws = sp.v == "ws";
+  TsWatch w;                                   // declared before the transport: outlives it on every path
+  TsMutePeer peer(ws ? 4096 : 0);
+  TransportConfig cfg;
+  cfg.protocol = Protocol::TCP;
+  if (ws) { cfg.writeStallTimeout = ms(sp.timeoutMs); cfg.soSndBuf = 4096; }
+  else
+  {
+    cfg.clientTls.enabled = true; cfg.clientTls.defaultMode = TlsMode::Client; cfg.clientTls.verifyPeer = false;
+    cfg.connectTimeout = ms(sp.timeoutMs);     // stays armed: connectPending lasts until the handshake is done
+    cfg.handshakeTimeout = sp.v == "hs" ? ms(sp.timeoutMs + 40) : ms(30000);
+  }
+  auto tr = Transport::tcp(cfg);
+  w.install(*tr);
+  bool armed = false;
+  clk::time_point t0 = clk::now();
+  auto setUp = [&]() -> std::string {
+    if (peer.fd < 0) return "fail:peer";
+    w.note("start");
+    if (!tr->start().isOk()) return "fail:start";
+    w.note("connect");
+    t0 = clk::now();
+    if (!ws)
+    {
+      if (!tr->connect("127.0.0.1", peer.port, TlsMode::Client).isOk()) return "fail:connect";
+      // the session exists (and its timers are scheduled) once the I/O thread has run the Connect command
+      if (!waitFor([&] { return tr->getStats().sessionsCurrent == 1; }, ms(2000))) return "fail:nosession";
+      w.note("sess");
+    }
+    else
+    {
+      auto r = tr->connectSync("127.0.0.1", peer.port, TlsMode::None, ms(2000));
+      if (!r.isOk()) return "fail:connectSync";
+      // 512 x 1 KiB: far beyond the small buffers, below maxWriteQueue; the first refused chunk finds the write queue empty, the
+      // case in which doSend() arms the write-stall timer
+      const std::size_t chunk = 1024, chunks = 512;
+      std::vector<std::uint8_t> buf(chunk, 0x5a);
+      for (std::size_t i = 0; i < chunks; ++i) if (!tr->send(r.value(), buf.data(), buf.size())) return "fail:send";
+      std::uint64_t last = 0;
+      int still = 0;
+      // The socket took something and bytesOut stands still below the total: the rest sits in the write queue. The demo waits for
+      // 50 ms of stillness; here 20 ms, because the peer's delayed ACK (~40 ms) opens the window once more and a 50 ms criterion
+      // then ends ~100 ms after the connect, too late for T = 200. The stall timer is armed when the queue gets its FIRST entry
+      // and is not re-armed on progress, so it is pending from the send loop on either way.
+      bool stalled = waitFor([&] {
+        auto s = tr->getStats();
+        still = (s.bytesOut == last && s.bytesOut > 0 && s.commands >= chunks + 1) ? still + 1 : 0;
+        last = s.bytesOut;
+        return still >= 10; }, ms(3000));
+      if (!stalled || last >= chunk * chunks) return "fail:nostall";
+      w.note("stalled");
+    }
+    armed = true;
+    auto used = std::chrono::duration_cast<ms>(clk::now() - t0);
+    if (std::getenv("TS_TIMERSTOP_DEBUG")) std::fprintf(stderr, "timerstop g=%zu v=%s set-up took %lld ms\n", k, sp.v.c_str(), static_cast<long long>(used.count()));
+    if (used > ms(sp.timeoutMs / 2)) return "fail:slow";
+    if (sp.after == 'e')
+    {
+      // let the safety-net timers expire on the running engine: the session must be closed by its time-out, ON THE I/O THREAD
+      waitFor([&] { return tr->getStats().sessionsCurrent == 0; }, ms(sp.timeoutMs + 1500));
+      w.note("expired");
+      std::this_thread::sleep_for(ms(80));       // the handshake timer (T + 40) of `hs`
+      return "ok";
+    }
+    if (used < ms(sp.timeoutMs / 3)) std::this_thread::sleep_for(ms(sp.timeoutMs / 3) - used);   // stop() at about t0 + T/3
+    return "ok";
+  };
+  std::string setup = setUp();
+  auto stopIt = [&] { w.note("stop"); tr->stop(); w.stopReturned = true; w.firstStopRet = true; w.note("stopret"); };
+  stopIt();
+  const auto tStop = clk::now();
+  if (sp.after == 'd' || sp.after == 'r') std::this_thread::sleep_for(ms(sp.n));
+  if (sp.after == 'r')
+  {
+    w.stopReturned = false;                    // callbacks from here on belong to the second run
+    w.note("restart");
+    bool ok = tr->start().isOk();
+    w.note(ok ? "restartret" : "restartret:fail");
+    if (!ok && setup == "ok") setup = "fail:restart";
+  }
+  if (sp.after == 'd') { w.note("destroy"); tr.reset(); }     // the last reference, while the timers are about to expire
+  std::this_thread::sleep_until(tStop + ms(sp.observeMs));
+  if (sp.after == 'r') stopIt();
+  if (tr) { w.note("destroy"); tr.reset(); }
+  w.note("end");
+  std::lock_guard<std::mutex> g(w.mx);
+  return "g=" + std::to_string(k) + ";v=" + sp.v + ";setup=" + setup + ";armed=" + (armed ? "1" : "0") + ";cbs=" + std::to_string(w.cbs) +
+         ";late=" + std::to_string(w.late) + ";lateEv=" + ts::join(w.lateEv, "/") + ";ev=" + ts::join(w.ev, "/");
+}
+
+std::string runTimerStop(const std::vector<std::string>& t)
+{
+  if (t.size() < 3 || t[1] != "tcp") return "bad-op";
+  std::vector<TsSpec> specs(t.size() - 2);
+  for (std::size_t k = 0; k < specs.size(); ++k) if (!tsParse(t[k + 2], specs[k])) return "bad-op";
+  std::vector<std::string> res(specs.size());
+  std::vector<std::thread> th;
+  for (std::size_t k = 0; k < specs.size(); ++k)
+    th.emplace_back([&, k] {
+      try { res[k] = tsScenario(k, specs[k]); }
+      catch (const std::exception&) { res[k] = "g=" + std::to_string(k) + ";v=" + specs[k].v + ";setup=fail:throw;armed=0;cbs=0;late=0;lateEv=-;ev=-"; }
+    });
+  for (auto& x : th) x.join();
+  std::string out = "timerstop n=" + std::to_string(specs.size());
+  for (auto& r : res) out += " " + r;
+  return out;
+}
+
+// startwindow tcp: deterministic window inside TcpEngine::start() of a RESTART (FC05c). shutdownDrain() does not cancel the safety-net
+// timers of the sessions it closes, so a TimerService handler may call enqueue() at any later time - also while the application starts
+// the stopped engine again. The op holds start() inside its (interposed) eventfd() call and lets a second thread do what the lambda of a
+// stale connect-timeout timer does: handleConnectTimeout(sid) -> enqueue(Command::close(...)). At that point the queue must still be
+// CLOSED (the command refused): an enqueue accepted there found the queue reopened while _eventFd is still -1 and read _eventFd under
+// _cmdMutex while start() writes it outside the mutex.
+std::string runStartWindow(const std::vector<std::string>& t)
+{
+  if (t.size() != 2 || t[1] != "tcp") return "bad-op";
+  auto tr = makeReal(false);
+  std::atomic<int> cbs{0};
+  tr->onError([&](TransportError, const std::string&) { cbs++; });
+  tr->onClose([&](SessionId, const TransportErrorInfo&) { cbs++; });
+  if (!tr->start().isOk()) return "startwindow-start-failed";
+  tr->stop();
+  auto* eng = dynamic_cast<TcpEngine*>(tr->_impl->engine.get());
+  if (!eng) return "startwindow-no-engine";
+  int accepted = -1, efdSeen = -2, openSeen = -1;
+  swin::hook = [&] {
+    std::thread other([&] {
+      std::size_t before = 0;
+      { std::lock_guard<std::mutex> g(eng->_cmdMutex); before = eng->_cmds.size(); openSeen = eng->_cmdsClosed ? 0 : 1; efdSeen = eng->_eventFd; }
+      eng->handleConnectTimeout(987654);
+      std::lock_guard<std::mutex> g(eng->_cmdMutex);
+      accepted = eng->_cmds.size() > before ? 1 : 0;
+    });
+    other.join();
+  };
+  swin::armed = true;
+  bool restarted = tr->start().isOk();
+  bool reached = !swin::armed.exchange(false);
+  swin::hook = nullptr;
+  tr->stop();
+  int after = cbs.load();
+  tr.reset();
+  return std::string("startwindow proto=tcp restarted=") + (restarted ? "1" : "0") + " window=" + (reached ? "1" : "0") +
+         " queueOpenInWindow=" + std::to_string(openSeen) + " eventFdInWindow=" + std::to_string(efdSeen) +
+         " acceptedInWindow=" + std::to_string(accepted) + " callbacks=" + std::to_string(after);
+}
+
 std::string stepOp(const std::vector<std::string>& t)
 {
   if (t.empty()) return "bad-op";
+  if (t[0] == "timerstop") return runTimerStop(t);
+  if (t[0] == "startwindow") return runStartWindow(t);
   if (t[0] == "sched") return runSched(t);
   if (t[0] == "nest") return runNest(t);
   if (t[0] == "storm") return runStorm(t);
